@@ -189,10 +189,28 @@ func (ev *evaluator) expr(e ast.Expr, en *env) value {
 			return concat(ev.expr(x.X, en), ev.expr(x.Y, en))
 		}
 		return other(e)
+	case *ast.SliceExpr:
+		// v[:] (the whole value: an array digest turned into a slice, a full re-slice)
+		if x.Low == nil && x.High == nil && x.Max == nil {
+			return ev.expr(x.X, en)
+		}
+		return other(e)
 	case *ast.CallExpr:
 		return ev.call(x, en)
 	}
 	return other(e)
+}
+
+// the same hash function under its different names
+var hashNames = map[string]string{
+	"tmhash.Sum": "sha256", "sha256.Sum256": "sha256", "crypto.Sha256": "sha256",
+}
+
+func hashName(s string) string {
+	if c, ok := hashNames[s]; ok {
+		return c
+	}
+	return s
 }
 
 func isByteSlice(t ast.Expr) bool {
@@ -272,7 +290,7 @@ func (ev *evaluator) call(c *ast.CallExpr, en *env) value {
 			if _, isVar := en.vars[id.Name]; !isVar && len(c.Args) == 1 && id.Name != en.recv {
 				arg := ev.expr(c.Args[0], en)
 				if arg.hash == "" {
-					return value{parts: arg.parts, hash: name}
+					return value{parts: arg.parts, hash: hashName(name)}
 				}
 			}
 		}
@@ -371,6 +389,15 @@ func (ev *evaluator) body(b *ast.BlockStmt, en *env) value {
 							en.vars[id.Name] = concat(cur, ev.expr(c.Args[0], en))
 							continue
 						}
+						if _, ok := en.vars[id.Name]; ok && sel.Sel.Name == "Grow" {
+							continue // capacity only
+						}
+					}
+					if id, ok := sel.X.(*ast.Ident); ok && len(c.Args) == 0 {
+						if _, ok := en.vars[id.Name]; ok && sel.Sel.Name == "Reset" {
+							en.vars[id.Name] = value{}
+							continue
+						}
 					}
 				}
 			}
@@ -405,8 +432,8 @@ func stringConsts(files []*ast.File) map[string]string {
 					}
 					switch v := vs.Values[i].(type) {
 					case *ast.BasicLit:
-						if v.Kind == token.STRING {
-							if s, err := strconv.Unquote(v.Value); err == nil {
+						if v.Kind == token.STRING || v.Kind == token.CHAR {
+							if s, err := strconv.Unquote(v.Value); err == nil && (v.Kind == token.STRING || len(s) == 1) {
 								out[n.Name] = s
 							}
 						}
